@@ -18,4 +18,13 @@ for seed in "$@"; do
     echo "SWEEP tier=$tier seed=$seed check=$2 done"
   done
 done
+# debug-assertions leg of engine S (reduced counts)
+for seed in "$@"; do
+  for job in "c04-pipeline 30000 1000000" "c05-budget 15000 400000" "c16-ingest 50000 2000000" "c18-consumer 100000 4000000" "c18-mphf-serial 15000 400000" "c20-serde 50000 2000000" "c20-export 50000 2000000"; do
+    set -- $job
+    n=$2; [ "$tier" = thorough ] && n=$3
+    "$here/target/std-dbg/dbgassert/sim-std" "$1" --tier "$tier" --seed "$seed" --cases "$n" --part-dir "$here/sweep/parts-dbg-$seed" --replay-dir "$here/sweep/replays" --known-findings "$here/known_findings.json" 2>/dev/null | grep -E "^\[|VIOLATION|violation|KNOWN|HARNESS"
+    echo "SWEEP tier=$tier seed=$seed check=$1@dbgassert done"
+  done
+done
 echo "SWEEP finished"
